@@ -180,6 +180,8 @@ def cell_pool():
         md_cell('first\u2028second\nthird\x85fourth\nfifth\n', None, {'f': '', 'g': [], 'notes': {'\u00b2': {'v': 0}, '7': {'v': 0}, '\u2460': 's0'}}),
         # line breaks but not a single newline character: a \r progress bar as stream text, form feeds in the source
         code_cell('page_one = 1\x0cpage_two = 2\x0cpage_three = 3', [out_stream('epoch 1: 10%\repoch 1: 50%\repoch 1: 100%')], 9),
+        # text that git regards as binary (a NUL character), still a valid JSON string in a valid notebook
+        code_cell('key = b"a\x00b"\nvalue = 1\nprint(key, value)\n', [out_stream('a\x00b 1\n')], 11),
         # short string payloads that are not text: a 56-character base64 image, a vendor JSON string
         code_cell('viz()\n', [out_display(3)], 10),
     ]
